@@ -149,6 +149,7 @@ type c06Job struct {
 	pol   string
 	mode  c06Mode
 	mux   bool
+	sh    shapeInfo // round table of the session (reference run): the system model runs on it (pump_sys.go)
 }
 
 type c06Viol struct {
@@ -164,6 +165,9 @@ type c06Out struct {
 	corr        []bool
 	notes       []string
 	secs        float64
+	sys         *sysCase // the whole session prepared for the system model (sys.run), compared by c06Report
+	sysE        int      // index of the equivocator
+	sysKey      string
 }
 
 func (c *ctx) c06Report(o *c06Out) {
@@ -177,6 +181,100 @@ func (c *ctx) c06Report(o *c06Out) {
 	}
 	for _, v := range o.viols {
 		c.res.Violate("property", v.key, v.what, v.rp)
+	}
+	c.c06System(o)
+}
+
+// c06Sys: counters of the system-level comparison for the run's notes
+var c06Sys = sysStats{skips: map[string]int{}}
+
+// c06SysReplay: the case plus the system-level event list and the schedule the model resolved it to
+type c06SysReplay struct {
+	c06Replay
+	Events   []string `json:"system_events,omitempty"`
+	Resolved string   `json:"resolved_schedule,omitempty"`
+	Model    string   `json:"model,omitempty"`
+	Real     string   `json:"implementation,omitempty"`
+}
+
+// c06System: the whole session in the system model (Model/System.v through sys.run). The n handlers of the session are the
+// system; the second instance of the two-faced party, re-encoded and re-sent messages are injections naming the equivocator.
+// Compared: after every event the recipient's round and result class, every party's final observation (round, result class,
+// culprits, error kind, emitted headers, view digests, stored broadcasts and p2p messages), who completed, which completers hold
+// equal views. Read off the reply: the view-digest table is injective; the C06 theorem (C06_sys_no_split_pairs); and, against the
+// real results: completers other than the equivocator that hold equal views of every protected round have equal public results.
+func (c *ctx) c06System(o *c06Out) {
+	if o.sys == nil {
+		return
+	}
+	out, err := c.RunSysCase(o.sys)
+	rp := func(what, model, real string) c06SysReplay {
+		r := c06SysReplay{c06Replay: o.rp, Events: out.Events, Resolved: out.Resolved, Model: model, Real: real}
+		r.What = what
+		return r
+	}
+	if err != nil {
+		c.res.Corr(false)
+		c.res.Violate("correspondence", "C06/system-model-error", err.Error(), rp(err.Error(), "", ""))
+		return
+	}
+	if out.Skip != "" {
+		c06Sys.skipped++
+		c06Sys.skips[out.Skip]++
+		return
+	}
+	c06Sys.compared++
+	c06Sys.injects += out.injects
+	c06Sys.invalids += out.invalids
+	c.res.Corr(out.Mismatch == "")
+	if out.Mismatch != "" {
+		c.res.Violate("correspondence", "C06/system-model/"+o.sysKey, "whole session in the system model (sys.run): "+out.Mismatch, rp(out.Mismatch, out.Model, out.Real))
+		return
+	}
+	f := out.Facts
+	if !f.VHInj {
+		what := "two different broadcast views of a round have the same view digest (table of the digests the handlers computed, keyed by message content): the echo cannot tell them apart"
+		c.res.Violate("property", "C06/"+o.sysKey+"/sys-view-digest-collision", what, rp(what, "", ""))
+	}
+	authentic := intsIn(f.Authentic, o.sysE) || out.injects == 0
+	if !authentic {
+		c.res.Corr(false)
+		what := fmt.Sprintf("a message that no party of the system sent names a party other than the equivocator %d as its sender (authentic for %v)", o.sysE, f.Authentic)
+		c.res.Violate("correspondence", "C06/system-model/"+o.sysKey+"/not-authentic", what, rp(what, "", ""))
+		return
+	}
+	hyp := f.StopFree && f.WF && f.VHInj
+	if hyp {
+		c06Sys.hypC06++
+	}
+	if !f.WF {
+		c06Sys.notWF++
+		c06Sys.skips["(compared, shape not well-formed) "+o.rp.Spec+" "+o.sys.Arg.L[3].String()]++
+	}
+	if !f.Complete {
+		c06Sys.incomplete++
+	}
+	for ab, pq := range f.Pairs {
+		if ab[0] == o.sysE || ab[1] == o.sysE {
+			continue
+		}
+		if hyp {
+			c06Sys.honestPairs++
+		}
+		if hyp && !pq[0] {
+			// excluded by C06_sys_no_split_pairs
+			c.res.Corr(false)
+			what := fmt.Sprintf("the reply contradicts the theorem: completers %d and %d hold different views of a protected round", ab[0], ab[1])
+			c.res.Violate("correspondence", "C06/system-model/"+o.sysKey+"/theorem", what, rp(what, "", ""))
+		}
+		if !pq[0] {
+			what := fmt.Sprintf("honest parties %d and %d both completed with different views of a protected broadcast round", ab[0], ab[1])
+			c.res.Violate("property", "C06/"+o.sysKey+"/sys-split", what, rp(what, "", ""))
+		}
+		if pq[0] && o.sys.Results[ab[0]] != o.sys.Results[ab[1]] {
+			what := fmt.Sprintf("honest parties %d and %d completed holding identical views of every protected broadcast round, but with different public results: what the round code consumed is not what the handler stored", ab[0], ab[1])
+			c.res.Violate("property", "C06/"+o.sysKey+"/sys-equal-views-different-results", what, rp(what, o.sys.Results[ab[0]], o.sys.Results[ab[1]]))
+		}
 	}
 }
 
@@ -241,6 +339,17 @@ func c06Exec(j c06Job) *c06Out {
 		s.Deliver(e)
 		if rs != nil {
 			rs.delivered(s, e)
+		}
+	}
+	// the whole session for the system model (compared by c06Report)
+	o.sys, o.sysE = s.SysCase(j.sh, true), s.idx(E)
+	o.sysKey = fmt.Sprintf("%s/round%d/%s", sp.Name, k, mode.Name)
+	if mode.Name == "" {
+		o.sysKey = fmt.Sprintf("%s/round%d/fork", sp.Name, k)
+	}
+	for i, id := range s.IDs {
+		if r, _ := resultOf(s.Nodes[id]); r != nil {
+			o.sys.Results[i] = c06PublicFP(r)
 		}
 	}
 	var G1, G2, fin []string
@@ -466,6 +575,7 @@ func runC06(c *ctx) {
 		"(plain, and adaptive: the equivocator echoes the recipient's own view digest); (resend) version 1 of the round-k broadcast to everybody, then version 2 to group 2 while it is in round k, then the second instance's " +
 		"messages with the digest each recipient expects (no cross-group completers with different results); every equivocator and every 2-partition of the honest parties (n=3,4) for FROST keygen/sign with FIFO/LIFO/random schedules, " +
 		"one equivocator/partition per round for CMP keygen, sign, presign (refresh, all positions and fork mode on every round in the thorough tier); non-trivial = the two groups really received different, individually valid round-k broadcasts"
+	defer func() { c06Sys.note(c, "C06 runs (fork / reencode / resend)") }()
 	var rpl *c06Replay
 	if c.replay != "" {
 		rpl = &c06Replay{}
@@ -500,7 +610,7 @@ func runC06(c *ctx) {
 			} else if rpl.Mode == "resend" {
 				mode = c06Mode{Name: "resend"}
 			}
-			return []c06Job{{mk(), rpl.Seed, party.ID(rpl.Cheater), g1, rpl.Round, last, sh.Bcast, rpl.Policy, mode, isCMP}}
+			return []c06Job{{mk(), rpl.Seed, party.ID(rpl.Cheater), g1, rpl.Round, last, sh.Bcast, rpl.Policy, mode, isCMP, sh}}
 		}
 		for _, k := range ks {
 			for ei, E := range party.NewIDSlice(ids) {
@@ -535,10 +645,10 @@ func runC06(c *ctx) {
 						// fork mode: in the quick tier only where the two instances can differ (CMP: see c06ForkRounds)
 						forked := c.thorough() || !isCMP || c06ForkRounds(name)[k]
 						if forked {
-							jobs = append(jobs, c06Job{mk(), seed, E, g1, k, last, sh.Bcast, pn, c06Mode{Name: "fork"}, isCMP})
+							jobs = append(jobs, c06Job{mk(), seed, E, g1, k, last, sh.Bcast, pn, c06Mode{Name: "fork"}, isCMP, sh})
 							// resend mode: wherever two instances can differ (CMP: the rounds of c06ForkRounds, in both tiers)
 							if !isCMP || c06ForkRounds(name)[k] {
-								jobs = append(jobs, c06Job{mk(), seed, E, g1, k, last, sh.Bcast, pn, c06Mode{Name: "resend"}, isCMP})
+								jobs = append(jobs, c06Job{mk(), seed, E, g1, k, last, sh.Bcast, pn, c06Mode{Name: "resend"}, isCMP, sh})
 							}
 						}
 						// reencode mode: every round (quick tier, CMP: the rounds that fork mode does not cover); the variant rotates with the case
@@ -549,7 +659,7 @@ func runC06(c *ctx) {
 							nm = 0
 						}
 						for v := 0; v < nm; v++ {
-							jobs = append(jobs, c06Job{mk(), seed, E, g1, k, last, sh.Bcast, pn, reencModes[(ei+mask+k+pi+v)%len(reencModes)], isCMP})
+							jobs = append(jobs, c06Job{mk(), seed, E, g1, k, last, sh.Bcast, pn, reencModes[(ei+mask+k+pi+v)%len(reencModes)], isCMP, sh})
 						}
 					}
 				}
